@@ -31,12 +31,12 @@ pub const RANK_STRUCTS: &[&str] = &[
     "rank9", "ranksmall0", "ranksmall1", "ranksmall2", "ranksmall3", "ranksmall4",
     // rank structures under selection wrappers
     "sa(rank9)", "sac(rank9)", "sza(sa(rank9))", "select9", "ss0", "ss1", "ss2", "ss3", "ss4", "szs0(ss0)", "szs3(ss3)", "rank9(sa)", "ranksmall2(sza(sa))", "sza(select9)",
-    "szac(sac(ranksmall4))",
+    "szac(sac(ranksmall4))", "map:sa->rank9", "map:sac62->ranksmall1", "map:rank9->sa", "map:ranksmall3->sza",
 ];
 pub const SELECT_STRUCTS: &[&str] = &[
     "sa", "sa_span", "sac", "sac_6_0", "sac_8_2", "sac_4_1", "sac_10_3", "sza", "szac", "szac_6_0", "szac_9_2", "select9", "ss0", "ss1", "ss2", "ss3", "ss4", "szs0", "szs1", "szs2", "szs3",
     "szs4", "sa(rank9)", "sac(rank9)", "sza(sa)", "szac(sac)", "sza(sa(rank9))", "szs0(ss0)", "szs3(ss3)", "sza(select9)", "rank9(sa)", "ranksmall2(sza(sa))", "szac(sac(ranksmall4))", "sa(sza)",
-    "ss1(ranksmall1)+sza",
+    "ss1(ranksmall1)+sza", "map:sa->rank9", "map:sac62->ranksmall1", "map:szac51->sac", "map:sza->sa", "map:rank9->sa", "map:ranksmall3->sza", "map:sac->addnumbits",
 ];
 
 fn bit_of(c: &RanksCase, i: usize, total: usize) -> bool {
@@ -537,6 +537,16 @@ fn run_structure(prop: &str, c: &RanksCase, bv: BitVec<Vec<usize>>, m: &Model, o
         "szac(sac(ranksmall4))" => rank_sel_selz!(SelectZeroAdaptConst::<_, _, 6, 1>::new(SelectAdaptConst::<_, _, 9, 0>::new(RankSmall::<3, 13>::new(bv)))),
         "sa(sza)" => sel_selz!(SelectAdapt::with_span(SelectZeroAdapt::with_span(AddNumBits::from(bv), span, sub), span * 2, (sub + 2) % 6)),
         "ss1(ranksmall1)+sza" => rank_sel_selz!(SelectZeroAdapt::with_inv(SelectSmall::<1, 9, _>::with_inv(RankSmall::<1, 9>::new(bv), blocks), inv, sub)),
+        // stacks assembled with the (unsafe) `map` methods, the documented way of swapping the inner layer
+        "map:sa->rank9" => rank_sel!(unsafe { SelectAdapt::with_inv(AddNumBits::from(bv), inv, sub).map(|b| Rank9::new(b.into_inner())) }),
+        "map:sac62->ranksmall1" => rank_sel!(unsafe { SelectAdaptConst::<_, _, 6, 2>::new(AddNumBits::from(bv)).map(|b| RankSmall::<1, 9>::new(b.into_inner())) }),
+        "map:szac51->sac" => sel_selz!(unsafe { SelectZeroAdaptConst::<_, _, 5, 1>::new(AddNumBits::from(bv)).map(|b| SelectAdaptConst::<_, _, 7, 0>::new(b)) }),
+        "map:sza->sa" => sel_selz!(unsafe { SelectZeroAdapt::with_inv(AddNumBits::from(bv), inv, sub).map(|b| SelectAdapt::with_inv(b, (inv + 2) % 17, sub)) }),
+        "map:rank9->sa" => rank_sel!(unsafe { Rank9::new(AddNumBits::from(bv)).map(|b| SelectAdapt::with_inv(b, inv, sub)) }),
+        "map:ranksmall3->sza" => rank_sel_selz!(unsafe {
+            RankSmall::<1, 11, _>::new(SelectAdapt::with_inv(AddNumBits::from(bv), inv, sub)).map(|b| SelectZeroAdapt::with_inv(b, (inv + 1) % 17, sub))
+        }),
+        "map:sac->addnumbits" => sel!(unsafe { SelectAdaptConst::<_, _, 9, 1>::new(AddNumBits::from(bv)).map(|b| AddNumBits::from(b.into_inner())) }),
         other => panic!("unknown structure {other}"),
     }
 }
